@@ -463,6 +463,9 @@ def left(text, num_chars=1):
 def len_(arg):
     # Excel reference: https://support.microsoft.com/en-us/office/
     #   len-lenb-functions-29236f94-cedc-429d-affd-b5e33d2c67cb
+    if isinstance(arg, float) and not arg.is_integer():
+        # the characters of 0.00001, not of 1e-05
+        return len(coerce_to_string(arg))
     return 0 if arg is None else len(str(arg))
 
 
